@@ -43,6 +43,7 @@ type Gen struct {
 	stats map[string]int
 	cliFocus string // C15: the <id> the next `info` should look at
 	partHeavy    bool // this history is about partitions: half of its objects are partitions of all four types
+	promoteLow   bool // slot 1 holds a system partition, slot 2 the primary one: promote the lower one
 	bigFirst     bool // this history starts with an object of over 1 MiB followed by small ones, and deletes it with zeroing
 	afterCompact bool // the previous op was a compacting delete without zeroing (storage shrank, old bytes may linger)
 }
@@ -384,11 +385,25 @@ func (g *Gen) createOp() *Op {
 		n = 2 + r.Intn(2)
 		g.count("history:big-object-first")
 	}
+	g.promoteLow = false
+	if g.partHeavy && !g.bigFirst && !crowded && cap >= 2 && n <= cap && r.Chance(1, 3) {
+		// a system partition in the first slot, the primary partition in the second: promoting the
+		// lower one rewrites two slots in one table write, the promoted one first
+		g.promoteLow = true
+		if n < 2 {
+			n = 2
+		}
+		g.count("history:primary-above-system-partition")
+	}
 	if n > 0 {
 		var dis []DI
 		havePrim := false
 		for i := 0; i < n; i++ {
-			di := g.validDI(!havePrim)
+			di := g.validDI(!havePrim && !g.promoteLow)
+			if g.promoteLow && i < 2 {
+				di = DI{DT: 0x4004, Fail: -1, Data: DataSpec{Lit: r.Bytes(1 + r.Intn(40))},
+					Opts: []DIOpt{{Kind: "part", I: int64(1 + r.Intn(5)), J: int64(1 + i), S: pick(r, archNames)}}}
+			}
 			if g.bigFirst {
 				di = DI{DT: 0x4007, Fail: -1, Data: DataSpec{Lit: r.Bytes(1 + r.Intn(40))}}
 				if i == 0 {
@@ -553,6 +568,11 @@ func (g *Gen) nextOp(f *sif.FileImage) *Op {
 				return &Op{Kind: "del", T: g.topt(), Sel: Sel{Kind: "id", N: 1}, Zero: true, Compact: r.Chance(1, 3)}
 			}
 		}
+	}
+	if g.promoteLow && r.Chance(1, 2) {
+		g.promoteLow = false
+		g.count("op:promote-partition-below-primary")
+		return &Op{Kind: "setprim", T: g.topt(), ID: 1}
 	}
 	x := r.Intn(100)
 	if g.partHeavy && len(in.parts) > 0 && r.Chance(1, 4) {
